@@ -308,6 +308,14 @@ func TestCheck(t *testing.T) {
 	idx := 0
 	for _, p := range ps {
 		urls := instantiate(p)
+		// the same instantiations with the first host label capitalised (the proxy's
+		// expressions are matched case-sensitively against what the client sent; whatever
+		// the engine accepts of these must be covered too)
+		for _, u := range append([]string{}, urls...) {
+			if u != "" && u[0] >= 'a' && u[0] <= 'z' {
+				urls = append(urls, strings.ToUpper(u[:1])+u[1:])
+			}
+		}
 		for _, ml := range methodLists {
 			idx++
 			if !r.Mine(idx) {
